@@ -13,4 +13,5 @@ import Tx3Proofs.C11Roundtrip
 #print axioms Tx3.Cbor.decode_encode
 #print axioms Tx3.Cbor.wfb_all
 #print axioms Tx3.Wire.C11_wire_roundtrip
+#print axioms Tx3.Wire.C11_too_deep
 #print axioms Tx3.Wire.C11_bytes_injective
